@@ -275,6 +275,13 @@ func cmdCheck(args []string) int {
 			continue
 		}
 		if specHasProp(sp, P) {
+			// an inline closure is verified inside its parent, never on its own
+			if fn := prog.Funcs[k]; fn != nil && sp.Inline && fn.Parent() != nil {
+				for fn.Parent() != nil {
+					fn = fn.Parent()
+				}
+				k = prog.Keys[fn]
+			}
 			keys = append(keys, k)
 		}
 	}
@@ -631,6 +638,9 @@ func specHasProp(sp *FuncSpec, P string) bool {
 	if sp.CtxAware != nil && sp.CtxAware.hasProp(P) {
 		return true
 	}
+	if sp.NonBlock != nil && sp.NonBlock.hasProp(P) {
+		return true
+	}
 	return false
 }
 
@@ -813,7 +823,7 @@ func (ex *Exec) funcsUsingSharedSpecs(P string) []string {
 		}
 		if hit {
 			// closures without a contract of their own are verified inline in their parent
-			for fn.Parent() != nil && ex.specs.Funcs[ex.prog.Keys[fn]] == nil {
+			for fn.Parent() != nil && (ex.specs.Funcs[ex.prog.Keys[fn]] == nil || ex.specs.Funcs[ex.prog.Keys[fn]].Inline) {
 				fn = fn.Parent()
 			}
 			out = append(out, ex.prog.Keys[fn])
